@@ -81,6 +81,13 @@ func C15(e *core.Env) int {
 			}
 			s.convs = append(s.convs, c)
 		}
+		if i < 6 {
+			// pinned shapes of a repaired defect: a variables block whose output:file points into another directory
+			s.convs[0].vars = true
+			s.convs[0].fileForm = []string{"rel", "parent", "abs", "cwd", "rel", "parent"}[i]
+			s.convs[0].pkgForm = "absent"
+			s.convs[0].existing = []string{"", "weirdname", "", "other", "pkg9", ""}[i]
+		}
 		// sometimes force two converters into one file
 		if nconv >= 2 && r.Intn(3) == 0 {
 			s.convs[1].pkgDir = s.convs[0].pkgDir
